@@ -488,6 +488,12 @@ def layer2(ctx, res, vv, work):
               "99999999999999999999 + 1", "2 ^ 64", "A='$A'; echo $A", "echo \"a\n$HOME\"", "echo $(ls >)", "echo ${A",
               "echo `>`", "echo a | cat <<< x", "echo 'unbalanced", "echo \"unbalanced", "echo $(", "echo ((1)", "a && && b", "| a",
               "a ||| b", ";;", "& &", "echo a >", "echo a > > f", "echo 9999999999999999999", "1 +", "(1 + 2", "1 / 0", "ls 3>&9", "2 ^ -1", "2 ^ 4294967296",
+              # arithmetic at the limits of i64: every operator with operands at / across the limits (a wrapped value or a
+              # diagnostic, never a crash) -- seed C05-int-min-div-minus-one-panics
+              "2^63/-1", "-9223372036854775808 / -1", "(0-9223372036854775807-1)/(0-1)", "(9223372036854775807 + 1) / (1 - 2)",
+              "2^63 * -1", "-9223372036854775808 * -1", "9223372036854775807 * 9223372036854775807", "0 - 9223372036854775807 - 2",
+              "-9223372036854775808 - 1", "9223372036854775807 + 9223372036854775807", "1 / (1 - 1)", "(2^63) / (0 - 1) + 1",
+              "2^63 ^ 2", "(0-2) ^ 63", "(0-2) ^ 64", "0 ^ 0", "1.0 / 0", "2^63 / -1.0", "7 / -1", "2^62 * 2 / -1", "1 - 2^63 / -1",
               "(" * 20000 + "1" + ")" * 20000 + "+1"]
     lines = corpus + short + rnd
     tt = {}
